@@ -147,6 +147,42 @@ def corrupt_regen(run):
     return None
 
 
+def corrupt_script_val(run):
+    """access script: a read after a skip returns the bytes of an earlier offset"""
+    for e in run:
+        if e.get("op") == "script":
+            seen_skip = False
+            for st in e["steps"]:
+                if st["a"] == "skip" and st["ok"] and st["n"] > 0:
+                    seen_skip = True
+                if seen_skip and st["a"] == "read" and st["ok"]:
+                    st["val"][0] = (st["val"][0] + 1) % 251
+                    return [run[0], e]
+    return None
+
+
+def corrupt_script_pos(run):
+    """access script: position() after a skip does not move"""
+    for e in run:
+        if e.get("op") == "script":
+            for st in e["steps"]:
+                if st["a"] == "skip" and st["ok"] and st["n"] > 0 and st["pos"] >= 0:
+                    st["pos"] -= st["n"]
+                    return [run[0], e]
+    return None
+
+
+def corrupt_script_end(run):
+    """access script: a read beyond the end succeeds"""
+    for e in run:
+        if e.get("op") == "script" and e["steps"] and not e["steps"][-1]["ok"] and e["steps"][-1]["a"] == "read":
+            st = e["steps"][-1]
+            st["ok"] = True
+            st["val"] = [0] * st["n"]
+            return [run[0], e]
+    return None
+
+
 def _scratch():
     """scratch directory of the harness: <work>/C19-tmp (work differs when ZV_REPO selects another tree)"""
     return os.path.join(vlib.WORK, "C19-tmp")
@@ -205,6 +241,9 @@ def run(ctx):
         ctx.selftest_corrupt(TRACE, allf, corrupt_resume_id, "continuation: a put after the reopen re-issued an id in use")
         ctx.selftest_corrupt(TRACE, allf, corrupt_resume_again, "continuation: second reopen differs from the live object")
         ctx.selftest_corrupt(TRACE, allf, corrupt_resume_ro, "continuation: a read-only open accepted an append")
+        ctx.selftest_corrupt(TRACE, allf, corrupt_script_val, "access script: a read after a skip returns other bytes")
+        ctx.selftest_corrupt(TRACE, allf, corrupt_script_pos, "access script: position() after a skip did not move")
+        ctx.selftest_corrupt(TRACE, allf, corrupt_script_end, "access script: a read beyond the end succeeded")
         ctx.selftest_corrupt(TRACE, allf, corrupt_regen, "file created over an existing one: a never-written byte shows the previous generation")
     finally:
         vlib.sh([os.path.join(vlib.TARGET, "release", BIN), "--mode", "clean", "--scratch", _scratch()])
